@@ -39,7 +39,9 @@ ASSUMPTIONS = [
     "torch autograd and the forward pass of the user-visible networks are trusted; the engine's own "
     "gradient bookkeeping, loss choice, encodings, projection and optimiser wiring are not",
     "comparison per tensor: |dW_obs - dW_exp| <= 1e-4*lr*max(max|g_exp|, ||dLP|| + alpha*max|dLA|) + 1e-5*lr + "
-    "2.4e-7*max(|W|,1) (float32 cancellation between the three terms and rounding of the stored weights); "
+    "2.4e-7*max(|W|,1) + 2*lr*||dLP||*min(1, 1e-6*S/||dLA||) with S = largest ||dLA|| over the predictor's tensors * "
+    "max|x| (float32 cancellation between the three terms, rounding of the stored weights, and the direction "
+    "error of a dLA that is tiny by cancellation); "
     "adversary: 1e-4*max|dU_exp| + 1e-5*lr + 2.4e-7*max(|U|,1); orthogonality |<v,dLA>| <= (1e-4*max(||v||,||g_obs||,alpha*||dLA||,||dLP||) + (1e-5 + 2.4e-7*max|W|/lr)*sqrt(numel))*||dLA||",
     "cases where a non-zero dLA/dW has Frobenius norm < 1e-12 (below float32 resolution of the engine) or a "
     "sigmoid output is within 1e-6 of 1 (float32 rounds it to 1 and the log loss gradient vanishes) are skipped",
@@ -112,6 +114,9 @@ def check(case):
         raise Skip("a sigmoid output is within 1e-6 of 1 (not representable in the engine's float32)")
 
     tags = []
+    # float32 resolution of the engine's dLA: absolute error ~ 1e-6 * (largest dLA tensor norm * max|x|); on a
+    # tensor whose dLA is tiny by cancellation the *direction* dLA/||dLA|| is then only known to dir_err
+    da_scale = max([float(torch.linalg.vector_norm(d)) for d in gAW] + [0.0]) * max(1.0, float(np.abs(X[b2]).max()))
     nt = False
     zero_branch = zero_any = False
     for i, (w0, w1, dp, da) in enumerate(zip(W0, W1, gP, gAW)):
@@ -132,7 +137,9 @@ def check(case):
         # alpha*dLA), which can cancel almost completely when dLP is parallel to dLA
         ndp = float(torch.linalg.vector_norm(dp))
         terms = ndp + alpha * float(da.abs().max()) if da.numel() else 0.0
-        tol = 1e-4 * lr_p * max(float(g.abs().max()), terms) + 1e-5 * lr_p + 2.4e-7 * max(wmax, 1.0)
+        dir_err = min(1.0, 1e-6 * da_scale / na) if na > 0.0 else 0.0
+        tol = (1e-4 * lr_p * max(float(g.abs().max()), terms) + 2.0 * lr_p * ndp * dir_err
+               + 1e-5 * lr_p + 2.4e-7 * max(wmax, 1.0))
         dev = float((d_obs - d_exp).abs().max())
         if not (dev <= tol):
             raise PropertyViolation(
@@ -148,7 +155,7 @@ def check(case):
             nv = float(torch.linalg.vector_norm(v))
             # the error of g_obs scales with the whole update (incl. the alpha*dLA part), not with ||v||
             ng = max(nv, float(torch.linalg.vector_norm(g_obs)), alpha * na, ndp)
-            bound = (1e-4 * ng + (1e-5 + 2.4e-7 * max(wmax, 1.0) / lr_p) * np.sqrt(w0.numel())) * na
+            bound = (1e-4 * ng + 2.0 * ndp * dir_err + (1e-5 + 2.4e-7 * max(wmax, 1.0) / lr_p) * np.sqrt(w0.numel())) * na
             if not (abs(ip) <= bound):
                 raise PropertyViolation(
                     f"predictor tensor {i} shape {tuple(w0.shape)}: <g_obs + alpha*dLA, dLA>_F = {ip!r} "
